@@ -36,6 +36,9 @@ CHECKS = {
  "C17": dict(design="§6 C17", engine="XH",
              technique="CrossHair (z3) symbolic execution of run_action_open and the _open_* functions over lines built from prefix/word/punctuation menus, against an oracle written from the statement, plus the option-k relational clause",
              note="stubs: in-memory FS, captured print, index lookups from a harness index (real SQLite in replay), init_from_template/subprocess/.zoq refresh recorded; cite keys and named URLs outside"),
+ "C01": dict(design="§3 C01", engine="XH+ATN",
+             technique="skeleton + holes: real lexer/parser concretely, real ParseTreeWalker + ZorgFileCompiler under CrossHair (z3) with symbolic token texts, oracle from the abstract page; z3 regex inclusion of the hole classes on the real lexer ATN",
+             note="stubs: strptime model, clock, loggers; skeleton set is the bound (110 core + layout-token + seeded multi-item pages); hole texts bounded"),
 }
 NA = {
  "C13": "crash points between external effects (SQLite transactions, OS file writes) cannot be made symbolic: the effects are C-level/ORM internals; with them concrete a symbolic crash index is realised at the first effect, which is enumeration of faulted runs, a different technique (DESIGN.md §8)",
